@@ -30,7 +30,7 @@ NPROC = {'quick': 4, 'thorough': 12}
 HEADS = ['PI_NAME', 'ORGANIZATION_NAME', 'SOURCE_DESCRIPTION', 'MISSION_NAME', 'VOLUME_INFO']
 EXTRA = ['TIME_INTERVAL', 'PI_CONTACT_INFO', 'PLATFORM', 'REVISION', 'DATA_INFO', 'LOCATION', 'R0', 'OTHER_COMMENTS', 'STIPULATIONS_ON_USE']
 ATTRVAL = {'VOLUME_INFO': '1, 1', 'TIME_INTERVAL': '60', 'REVISION': 'R0', 'PI_NAME': 'Doe, Jane', 'R0': 'first: version',
-           'OTHER_COMMENTS': '', 'STIPULATIONS_ON_USE': ''}
+           'OTHER_COMMENTS': '', 'STIPULATIONS_ON_USE': '', 'LLOD_FLAG': '-8888', 'LLOD_VALUE': '0.01'}
 VALS = [0., 1.5, -2.25, 1234567., 1e-20, -3.3e15, 123456789., 0.1, 1 / 3., 2 / 3., 99999995., -0.000123456749]
 CODES = [-999, -9999, -99999, -8888.5, 9999999, -9999999, -99999999, -999.25, -9999999999999, -9999999999.5]      # also codes spelt with more characters than a formatted value
 
@@ -58,6 +58,17 @@ def gen(rng, tier):
                              vals=[rng.choice(VALS + near + [rng.uniform(-1, 1) * 10 ** rng.randint(-8, 8)]) for _ in range(nrec)],
                              mask=[rng.random() < 0.25 for _ in range(nrec)]))
         attrs = rng.sample(HEADS + EXTRA, rng.randint(0, 8))
+        if nrec >= 2 and nrec < 10 and rng.random() < 0.15:
+            # a value of the independent variable equals the first dependent variable's missing code (a code such as 3660 is
+            # unusual, not illegal): line 12 declares codes for the dependent variables only
+            deps[0].update(code=3600 + 60 * rng.randrange(nrec), nocode=False)
+            deps[0]['fill'] = deps[0]['code']
+        if rng.random() < 0.2:
+            # detection-limit flags with a numeric limit in the header, and cells that hold the flag: they are values
+            attrs = [a for a in attrs if a not in ('LLOD_FLAG', 'LLOD_VALUE')] + ['LLOD_FLAG', 'LLOD_VALUE']
+            for d_ in deps:
+                if not d_['mask'][0]:
+                    d_['vals'][0] = -8888.
         out.append(dict(nrec=nrec, deps=deps, attrs=attrs, iunit=rng.choice(['s', 'seconds since midnight', None, 'Start_UTC']),
                         wdate=rng.random() < 0.8, tdtype=rng.choice(['d', 'd', 'f', 'i']),
                         ipos=rng.choice([0, 0, 1, len(deps)])))      # where the independent variable sits among the input's variables
@@ -168,8 +179,10 @@ def view(g, case=None):
     known = set(HEADS + ['SDATE', 'WDATE', 'TIME_INTERVAL', 'INDEPENDENT_VARIABLE', 'TFLAG', 'fmt', 'n_header_lines',
                          'INDEPENDENT_VARIABLE_DEFINITION', 'INDEPENDENT_VARIABLE_UNITS'])
     attrs = ['%s=%s' % (hs(k), hs(str(getattr(g, k)))) for k in g.ncattrs() if k not in known]
+    im = np.ma.getmaskarray(iv[:]).tolist()
     return dict(head=[hs(str(h)) for h in heads], indep=hs(indep), iunit=hs(iv.units),
-                icells=[lib.show_rat(Fraction('%.6e' % x)) for x in np.asarray(iv[:]).tolist()], deps=deps, attrs=attrs)
+                icells=['_' if mm else lib.show_rat(Fraction('%.6e' % x)) for x, mm in zip(np.ma.getdata(iv[:]).tolist(), im)],
+                deps=deps, attrs=attrs)
 
 
 def impl(case):
@@ -198,6 +211,23 @@ def impl(case):
                 g2 = ffi1001(p2)
                 res['view2'] = view(g2)
                 res['lines2'] = tokenize(open(p2).read())
+                # the file that was read gets another time unit (values converted), is written and read again: the units on
+                # line 9 are those of the variable as it is now
+                try:
+                    g3 = ffi1001(p)
+                    iv = g3.variables[g3.INDEPENDENT_VARIABLE]
+                    iv[:] = iv[:] / 3600.
+                    iv.units = 'hours'
+                    p3 = p + '.3'
+                    ncf2ffi1001(g3, p3).close()
+                    g4 = ffi1001(p3)
+                    iv4 = g4.variables[g4.INDEPENDENT_VARIABLE]
+                    res['retimed'] = dict(units=str(iv4.units), vals=[float(x) for x in np.ma.getdata(iv4[:]).tolist()])
+                    os.remove(p3)
+                except lib.HarnessError:
+                    raise
+                except Exception as e:
+                    res['retimed'] = dict(err='%s %s' % (type(e).__name__, str(e)[:80]))
             except lib.HarnessError:
                 raise
             except Exception as e:
@@ -320,6 +350,15 @@ def oracle(case, res):
     want_unit = case['iunit'] if case['iunit'] is not None else 'Start_UTC'
     if bytes.fromhex(v['iunit']).decode() != want_unit:
         return 'unit of the independent variable: %s read, %s written' % (bytes.fromhex(v['iunit']).decode(), case['iunit'])
+    if '_' in v['icells']:
+        return 'a value of the independent variable is read as missing (%s): line 12 declares codes for the dependent variables only' % v['icells']
+    rt = res.get('retimed')
+    if rt is not None:
+        if 'err' in rt:
+            return 'the file with its time axis converted to hours could not be written and read: ' + rt['err']
+        want = [(i * 60. + 3600) / 3600. for i in range(case['nrec'])]
+        if rt['units'] != 'hours' or any(not _sig7(a, b) for a, b in zip(rt['vals'], want)):
+            return 'time axis converted to hours, written and read: units %r values %s, expected hours %s' % (rt['units'], rt['vals'][:3], want[:3])
     # second cycle changes no data
     if res['view2']['deps'] != v['deps'] or res['view2']['icells'] != v['icells']:
         return 'a second write/read cycle changed the data'
